@@ -32,7 +32,8 @@ WRITES = ("apply_res_ids", "apply_elements", "apply_atom_names", "set")
 QUERY_OPS = (("check_atom_id_continuity", "check_res_id_continuity", "check_duplicate_atoms",
               "filter_linear_bond_continuity", "check_linear_continuity", "check_backbone_continuity",
               "filter_polymer", "filter_intersection", "create_continuous_res_ids",
-              "infer_elements", "create_atom_names") + ATOM_FILTERS)
+              "infer_elements", "create_atom_names", "filter_first_altloc",
+              "filter_highest_occupancy_altloc") + ATOM_FILTERS)
 ALL_OPS = QUERY_OPS + PIPELINES
 # representation table: dtype class the documentation gives for the result of each function
 # (only used to decide how an array is written into the JSON log, never for a verdict)
@@ -197,6 +198,15 @@ def call_real(op, a, obj, objb=None, form=0):
                     res = struc.filter_polymer(obj, pol_type=_txt(a[1]), min_size=int(a[0]))
             elif op == "filter_intersection":
                 res = struc.filter_intersection(obj, objb)
+            elif op == "filter_first_altloc":
+                res = struc.filter_first_altloc(obj, np.array([_txt(t) for t in a[0]], dtype="U1"))
+            elif op == "filter_highest_occupancy_altloc":
+                alts = np.array([_txt(t) for t in a[0]], dtype="U1")
+                occ = np.array(a[1], dtype=float) / 4
+                if form % 2 == 0:
+                    res = struc.filter_highest_occupancy_altloc(obj, alts, occ)
+                else:
+                    res = struc.filter_highest_occupancy_altloc(obj, altloc_ids=alts, occupancies=occ.astype(np.float32))
             elif op == "create_continuous_res_ids":
                 if not a:
                     res = struc.create_continuous_res_ids(obj)
@@ -376,6 +386,7 @@ _DISPS = [(0, 0, 0), (4, 0, 0), (2, 2, 4), (3, 4, 0), (6, 0, 0), (-6, 0, 0), (0,
           (0, 0, 8), (5, 0, 0), (0, -5, 0), (3, 3, 3), (-4, -4, 2), (6, 2, 3), (12, 0, 0), (1, 0, 0), (5, 5, 0)]
 _LIMS = [(6, 5, 9, 5), (5, 4, 7, 4), (3, 2, 3, 2), (2, 1, 1, 1), (0, 1, 3, 1), (13, 10, 17, 10), (1, 1, 2, 1),
          (7, 4, 9, 4), (1, 3, 5, 3), (3, 4, 3, 2)]
+_ALT_POOL = ["", ".", "?", " ", "A", "B", "C", "a", "b", "1", "*", "Z"]
 _POL_POOL = ["peptide", "p", "pep", "nucleotide", "n", "nuc", "carbohydrate", "c", "carb", "x", "lipid", "",
              "P", "N", "protein", "na"]
 
@@ -507,6 +518,11 @@ def gen_session(item):
         elif op == "create_continuous_res_ids":
             if rng.random() < 0.7:
                 a = [rng.random() < 0.5]
+        elif op in ("filter_first_altloc", "filter_highest_occupancy_altloc"):
+            pool_ids = rng.choice([["", "A", "B"], ["", ".", "A", "B", "C", "a"], _ALT_POOL])
+            a = [[list(rng.choice(pool_ids)) for _ in range(n)]]
+            if op == "filter_highest_occupancy_altloc":
+                a.append([rng.choice([0, 1, 2, 2, 3, 4]) for _ in range(n)])
         elif op == "filter_intersection":
             has_b = rng.random() < 0.6
             for _ in range(rng.randrange(0, 5)):
@@ -696,6 +712,8 @@ def run(ctx):
         "hit exactly by a distance (float32/float64 comparison is then exact or irrelevant)",
         "Dom_Polymer: filter_polymer on arrays with at least one atom (the empty array raises IndexError; "
         "the documentation is silent)",
+        "Dom_Altloc / Dom_Occ: altloc ids are ndarrays of at most one character, occupancies non-negative multiples "
+        "of 1/4 (sums are exact)",
         "linear / backbone continuity functions on AtomArray only (as documented); every other function on "
         "AtomArray and AtomArrayStack",
         "the Chemical Component Dictionary is the synthetic one of /verif/fixtures/ccd (CCDType in the "
@@ -740,7 +758,7 @@ def run(ctx):
               "filter_polymer:ok"):
         if not ocs.get(k):
             raise Vacuity(f"outcome never reached: {k}")
-    if len(fams) != 10:
+    if len(fams) != 11:
         raise Vacuity(f"input families missing: {sorted(fams)}")
     if not all(conts.get(k) for k in ("array0", "array1", "array2", "stack0", "stack1", "stack3")):
         raise Vacuity(f"container / argument forms not all executed: {conts}")
